@@ -239,6 +239,9 @@ def gen_cases(rs, tier, routines=ROUTINES):
                 cases.append(c)
         for _ in range(nrand):
             n = int(rs.randint(5, 11 if not big else 15))
+            if rs.rand() < (.1 if not big else .15):
+                # size axis: sizes around the thresholds a size-dependent code path would use (16/17, 32/33/34, 64/65)
+                n = int(rs.choice([16, 17, 24, 32, 33, 34, 40, 64, 65] if big else [16, 17, 33, 34, 40, 65]))
             wmax = int(rs.choice([1, 9, 2]))
             if r in CONN or rs.rand() < .3:
                 A = spanning_plus(rs, n, int(rs.randint(0, n)), not und, wmax)
@@ -253,6 +256,8 @@ def gen_cases(rs, tier, routines=ROUTINES):
             if not two_disjoint_edges(A, und):
                 continue
             c = {'routine': r, 'A': A.tolist(), 'itr': int(rs.randint(0, 4)), 'seed': int(rs.randint(2 ** 31))}
+            if n > 15:
+                c['itr'] = int(rs.randint(0, 2)); c['t'] = 20.0
             u = rs.rand()
             if u < .25 and wmax != 1:
                 # representation axis: the same weights in tiny units (all or some entries below 1e-8): "weighted"
